@@ -140,22 +140,28 @@ def writeStream (buf : Bytes) (s : St) : St :=
 def streamEnter (id : Nat) (showPrompt : Bool) (s : St) : Bool × St :=
   (s.logPrompt, { s with streams := s.streams ++ [id], logPrompt := showPrompt })
 
+/-- what `with_stream` exit forwards to the still-attached streams: for a regex prompt, the part
+    of the hold-back buffer that precedes the actual prompt -/
+def exitFlush (s : St) : List (Nat × Bytes) :=
+  match s.logPrompt, s.prompt with
+  | false, some (.re r) =>
+    if s.streambuf.isEmpty then [] else
+    match r.search s.streambuf with
+    | some (a, _) => s.streams.map fun i => (i, s.streambuf.take a)
+    | none => []
+  | _, _ => []
+
+/-- the hold-back buffer after `with_stream` exit -/
+def exitKeep (s : St) : Bytes :=
+  match s.logPrompt, s.prompt with
+  | false, some (.re _) => []
+  | false, some (.lit p) => s.streambuf.drop p.length
+  | _, _ => s.streambuf
+
 /-- `with_stream` exit (the `finally` block) -/
 def streamExit (id : Nat) (prev : Bool) (s : St) : St :=
-  -- regex prompt: forward what precedes the actual prompt, drop the rest of the hold-back
-  let s := match s.logPrompt, s.prompt with
-    | false, some (.re r) =>
-      if s.streambuf.isEmpty then s else
-      let s := match r.search s.streambuf with
-        | some (a, _) => emit (s.streambuf.take a) s
-        | none => s
-      { s with streambuf := [] }
-    | _, _ => s
-  let s := { s with streams := s.streams.erase id }
-  let s := match s.logPrompt, s.prompt with
-    | false, some p => { s with streambuf := s.streambuf.drop p.len }
-    | _, _ => s
-  { s with logPrompt := prev }
+  { s with fwd := s.fwd ++ exitFlush s, streams := s.streams.erase id, streambuf := exitKeep s,
+           logPrompt := prev }
 
 /-! ### death strings -/
 
